@@ -68,7 +68,8 @@ def parseRule (j : Json) : Except String Rule := do
       | some a => do return some (← a.toList.mapM parseBodyFilter)),
     logOverride := ← opt? j "log", reset := ← opt? j "reset", stop := ← opt? j "stop",
     redirectUnitId := ← opt? j "ru", configurationLogUnitId := ← opt? j "lu",
-    targetHash := ← opt? j "th" }
+    targetHash := ← opt? j "th",
+    configurationResetUnitId := ← opt? j "cu" }
 
 def parseRules (j : Json) : Except String (List Rule) := do
   (← req? j "rules" : Array Json).toList.mapM parseRule
